@@ -85,6 +85,11 @@ CLAIMED = {
   text='Decides structural clauses: nothing in cproc-qbe calls an environment-, clock-, locale- or randomness-dependent function (so ctype/strtod/printf are C-locale); no pointer value is converted to an integer, printed, hashed or ordered; only map.c (and one reviewed diagnostic loop) walks table slots; ids come from deterministic counters; each constructor initialises every field outside reviewed variant arms; stdin/file and -o/stdout differ only in the FILE. Uninitialised reads through tagged unions in general, and equality of the self-built compiler, are NOT decided.',
   note='Trusts clang 14 front end, lib/eai.py, the allow-lists ALLOWED / FORBIDDEN in props/c20.py (each entry carries its reason).',
   design='5/C20'),
+ 'C02': dict(
+  technique='AST lint of the compiler sources against the constructs cproc itself rejects (with a compiled-in positive witness file), bounded model check of init.c:initadd over initializer histories (ordering abstraction), and shared determinism / lowering-table rules of C20, C16.b and C01.a',
+  text='Decides necessary conditions only: cproc\'s own 19 translation units stay inside the subset cproc accepts (so a stage 2 can exist); the initializer list discipline its static tables rely on holds for all 399 histories of up to 3 nested/disjoint initializers; nothing in the compiler depends on environment, addresses, hash order or uninitialised constructor fields; hash() reads exactly the key; the instruction-selection table is right for every operator x type (incl. the 64-bit relational arms the compiler\'s own code uses). Byte-identity of stage-1 and stage-2 output is NOT decided (needs the QBE backend and execution).',
+  note='Trusts clang 14 front end, lib/eai.py, witness/c02_witness.c, and the rules it shares with C01/C16/C20.',
+  design='5/C02'),
  'C01': dict(
   technique='abstract interpretation (partial evaluation of the lowering functions over the static type/operator descriptor domain) + AST table extraction vs C11/QBE oracle tables',
   text='Decides structural clauses only: the instruction-selection, conversion, load/store, truthiness and bit-field shift tables that every compiled program is lowered through are extracted from the current source by an abstract interpreter and compared exhaustively (over the finite descriptor domain) with oracle tables written from C11 and the QBE manual; sibling switches are checked for exhaustiveness. Semantic equivalence of emitted IL for arbitrary programs is NOT decided.',
